@@ -79,6 +79,21 @@ def f_durs(shape, a):
         yield gen.apply_mods(shape, [(j, 'dur', d) for j, d in zip(jobs, ds)])
 
 
+def f_outcomes(shape, a):
+    """every assignment of an outcome (return / raise / raise while
+    critical, ...) to the atomic jobs; a['values'] = list of mod lists"""
+    jobs = atomic_names(shape)
+    if a.get('where'):
+        byname = gen.nodes_of(shape)
+        jobs = [n['name'] for n in byname[a['where']]['nodes']
+                if not gen.is_sched(n)]
+    values = a.get('values', [[('out', 'ret')], [('out', 'raise')],
+                              [('out', 'raise'), ('critical', True)]])
+    for combo in itertools.product(values, repeat=len(jobs)):
+        yield gen.apply_mods(shape, [(j, at, v) for j, mods in zip(jobs, combo)
+                                     for at, v in mods])
+
+
 def f_mods(shape, a):
     """explicit list of alternative mod lists"""
     names = gen.nodes_of(shape)
@@ -129,7 +144,7 @@ def f_product(shape, a):
     yield from rec(shape, 0)
 
 
-FORCERS = {'none': f_none, 'faults_windows': f_faults_windows,
+FORCERS = {'none': f_none, 'outcomes': f_outcomes, 'faults_windows': f_faults_windows,
            'windows': f_windows, 'durs': f_durs, 'mods': f_mods,
            'each_job': f_each_job, 'each_node': f_each_node,
            'product': f_product}
@@ -180,6 +195,10 @@ def shapes(names, thorough=False):
             yield from flat4_shapes(thorough)
         elif nm == 'flat4all':
             yield from flat4_shapes(True)
+        elif nm == 'flat5s':
+            yield from gen.sparse_shapes(5, 3 if thorough else 2)
+        elif nm == 'flat6s':
+            yield from gen.sparse_shapes(6, 1)
         elif nm == 'nest32':
             yield from gen.nest_shapes(3, 2)
         elif nm == 'nest22':
